@@ -20,6 +20,7 @@ const (
 	hexValNum       = 10
 	metaSeqLength   = 6
 	setDirectiveLen = 4
+	maxIncludeDepth = 100
 )
 
 // Parser is a inputrc parser.
@@ -34,6 +35,7 @@ type Parser struct {
 	line      int
 	conds     []bool
 	errs      []error
+	includes  []string // files currently being included, outermost first
 }
 
 // New creates a new inputrc parser.
@@ -358,6 +360,18 @@ func (p *Parser) do(handler Handler, keyword, val string) error {
 		}
 
 		path := expandIncludePath(val)
+
+		// A file that (directly or not) includes itself would never stop.
+		including := append(append([]string{}, p.includes...), path)
+		if len(including) > maxIncludeDepth || (p.name != "" && path == expandIncludePath(p.name)) || containsString(p.includes, path) {
+			return &ParseError{
+				Name: p.name,
+				Line: p.line,
+				Text: "$include " + val,
+				Err:  ErrIncludeRecursion,
+			}
+		}
+
 		buf, err := handler.ReadFile(path)
 
 		switch {
@@ -367,7 +381,7 @@ func (p *Parser) do(handler Handler, keyword, val string) error {
 			return err
 		}
 
-		return Parse(bytes.NewReader(buf), handler, WithName(val), WithApp(p.app), WithTerm(p.term), WithMode(p.mode))
+		return Parse(bytes.NewReader(buf), handler, WithName(val), WithApp(p.app), WithTerm(p.term), WithMode(p.mode), withIncludes(including))
 	}
 
 	if !p.conds[len(p.conds)-1] {
@@ -429,6 +443,23 @@ func WithMode(mode string) Option {
 	return func(p *Parser) {
 		p.mode = mode
 	}
+}
+
+// withIncludes is a parser option to set the chain of files being included.
+func withIncludes(includes []string) Option {
+	return func(p *Parser) {
+		p.includes = includes
+	}
+}
+
+func containsString(list []string, s string) bool {
+	for _, v := range list {
+		if v == s {
+			return true
+		}
+	}
+
+	return false
 }
 
 // ParseError is a parse error.
